@@ -196,3 +196,34 @@ M("C19", "seed-local-rebound-before-seed", F, "", "", "C19.R4",
           "        if beacon_id is None:\n            beacon_id = random.getrandbits(32) & 0x7FFFFFFF\n        bid = beacon_id\n        beacon_id = (bid - bid % 2) & 0xFFFFFFFF\n"
           "        if beacon_id > 0x7FFFFFFF:\n            raise ValueError(\"beacon_id must be less or equal than 2147483647\")\n        self.beacon_id = beacon_id\n        beacon_id = bid\n"),
          (F, SEED, "        random.seed(beacon_id ^ 0xACCE55ED)\n")])
+
+# ---------------------------------------------------------------------------------------------- R5: other ways of building / encoding / slicing the info string
+INFO = "        info = f\"{self.computer}\\t{self.user}\\t{self.process}\"\n"
+INFO_BYTES = "        info_bytes = info.encode()[:51]\n"
+T("C19", "twin-info-str-format-explicit-codec", F, "", "",
+  edits=[(F, INFO, "        info = \"{}\\t{}\\t{}\".format(self.computer, self.user, self.process)\n"), (F, INFO_BYTES, "        info_bytes = info.encode(\"utf-8\")[0:51]\n")])
+T("C19", "twin-info-join-bytes-constructor", F, "", "",
+  edits=[(F, INFO, "        info = \"\\t\".join([self.computer, self.user, self.process])\n"), (F, INFO_BYTES, "        info_bytes = bytes(info, \"utf-8\")[:51:1]\n")])
+T("C19", "twin-info-percent-format", F, INFO, "        info = \"%s\\t%s\\t%s\" % (self.computer, self.user, self.process)\n")
+# an encoder the length domain does not model: the slice still bounds the length (kind unknown) / no bound -> undecided
+T("C19", "twin-info-memoryview-slice", F, INFO_BYTES, "        info_bytes = bytes(memoryview(info.encode())[:51])\n")
+M("C19", "info-format-limit-too-large", F, "", "", "C19.R5",
+  edits=[(F, INFO, "        info = \"{}\\t{}\\t{}\".format(self.computer, self.user, self.process)\n"), (F, INFO_BYTES, "        info_bytes = info.encode(\"utf-8\")[0:64]\n")])
+M("C19", "info-truncates-characters-not-bytes", F, "", "", "C19.R5",
+  edits=[(F, INFO, "        info = \"\\t\".join([self.computer, self.user, self.process])\n"), (F, INFO_BYTES, "        info_bytes = info[:51].encode(\"utf-8\")\n")])
+
+# ---------------------------------------------------------------------------------------------- R7: the on_<command> method name, per BeaconCommand member
+GH_NAME = "            command_name = task.name.replace(\"COMMAND_\", \"\").lower() if task else \"empty_task\"\n"
+T("C19", "twin-method-name-removeprefix", F, GH_NAME, "            command_name = task.name.removeprefix(\"COMMAND_\").lower() if task else \"empty_task\"\n")
+T("C19", "twin-method-name-prefix-slice", F, GH_NAME, "            command_name = task.name[len(\"COMMAND_\"):].lower() if task else \"empty_task\"\n")
+T("C19", "twin-method-name-lower-first", F, GH_NAME, "            command_name = task.name.lower().replace(\"command_\", \"\") if task else \"empty_task\"\n")
+T("C19", "twin-method-name-partition", F, GH_NAME, "            command_name = task.name.partition(\"_\")[2].lower() if task else \"empty_task\"\n")
+T("C19", "twin-method-name-if-statements", F,
+  "        if command_id is not None:\n            task = BeaconCommand(command_id)\n" + GH_NAME + "        else:\n            command_name = \"empty_task\"\n",
+  "        if command_id is None:\n            command_name = \"empty_task\"\n        else:\n            task = BeaconCommand(command_id)\n            if task:\n"
+  "                command_name = task.name.replace(\"COMMAND_\", \"\").lower()\n            else:\n                command_name = \"empty_task\"\n")
+T("C19", "twin-method-name-percent-format", F, "        on_handler = getattr(self, f\"on_{command_name}\", None)\n", "        on_handler = getattr(self, \"on_%s\" % command_name, None)\n")
+M("C19", "method-name-slice-off-by-one", F, GH_NAME, "            command_name = task.name[len(\"COMMAND\"):].lower() if task else \"empty_task\"\n", "C19.R7")
+M("C19", "method-name-first-word-only", F, GH_NAME, "            command_name = task.name.split(\"_\")[1].lower() if task else \"empty_task\"\n", "C19.R7")
+M("C19", "method-name-not-lowered", F, GH_NAME, "            command_name = task.name.replace(\"COMMAND_\", \"\") if task else \"empty_task\"\n", "C19.R7")
+M("C19", "method-name-prefix-without-underscore", F, "        on_handler = getattr(self, f\"on_{command_name}\", None)\n", "        on_handler = getattr(self, f\"on{command_name}\", None)\n", "C19.R7")
